@@ -885,6 +885,23 @@ def m_sorted(I, ctx, args, kwargs, node):
     is_set = isinstance(arg, (Ref, Snapshot)) and kind_of(arg) == 'set'
     rev = kwargs.get('reverse', False)
     numeric = is_set or all(is_num(e) or is_boolish(e) for _, e in items_of(to_seq(I, ctx, arg)))
+    if not is_set and not kwargs:
+        seq0 = to_seq(I, ctx, arg)
+        elems = list(seq0.slots) if isinstance(seq0, SymSeq) else list(seq0)
+
+        def numeric_part(x):
+            # an optional number that the comprehension's filter has already found to be present (`if entry is not None`): its value
+            if isinstance(x, Choice):
+                nums = [a for _, a in x.alts if a is not None and (is_num(a) or is_boolish(a))]
+                others = [a for _, a in x.alts if a is not None and not (is_num(a) or is_boolish(a))]
+                if len(nums) == 1 and not others:
+                    return nums[0]
+            return x
+        if elems and all(isinstance(e, tuple) and len(e) == len(elems[0]) for e in elems):
+            conv = [tuple(numeric_part(x) for x in e) for e in elems]
+            if all(all(is_num(x) or is_boolish(x) for x in e) for e in conv):
+                seq1 = SymSeq(conv, seq0.n, seq0.flags) if isinstance(seq0, SymSeq) else tuple(conv)
+                return ctx.alloc('list', sort_seq_lex(I, ctx, seq1))
     if 'key' in kwargs or not numeric or set(kwargs) - {'key', 'reverse'} or not isinstance(rev, bool):
         # keys / non-numeric elements: only when everything needed for the order is concrete (CPython sorts)
         seq = to_seq(I, ctx, arg)
@@ -922,6 +939,32 @@ def m_sorted(I, ctx, args, kwargs, node):
             back = tuple((simp(-znum(e)) if is_sym(e) else -e) for e in out)
         return ctx.alloc('list', back)
     return ctx.alloc('list', sort_seq(I, ctx, seq))
+
+
+def sort_seq_lex(I, ctx, seq):
+    """ascending lexicographic sort of equal-length tuples of numbers (odd-even transposition network); absent slots sort last"""
+    if isinstance(seq, SymSeq):
+        vals = [(f, tuple(b2i(x) for x in e)) for f, e in zip(seq.flags, seq.slots)]
+    else:
+        vals = [(True, tuple(b2i(x) for x in e)) for e in seq]
+
+    def lex_lt(a, b):
+        out = False
+        for x, y in reversed(list(zip(a, b))):
+            lt = simp(znum(x) < znum(y)) if (is_sym(x) or is_sym(y)) else (x < y)
+            eq = simp(znum(x) == znum(y)) if (is_sym(x) or is_sym(y)) else (x == y)
+            out = Or_(lt, And_(eq, out))
+        return out
+    n = len(vals)
+    for rnd in range(n):
+        for i in range(rnd % 2, n - 1, 2):
+            (ga, a), (gb, b) = vals[i], vals[i + 1]
+            sw = And_(gb, Or_(Not_(ga), lex_lt(b, a)))
+            vals[i] = (If_(sw, gb, ga), tuple(If_(sw, y, x) for x, y in zip(a, b)))
+            vals[i + 1] = (If_(sw, ga, gb), tuple(If_(sw, x, y) for x, y in zip(a, b)))
+    if isinstance(seq, SymSeq):
+        return SymSeq([e for _, e in vals], seq_len(seq))
+    return tuple(e for _, e in vals)
 
 
 def dedupe(I, ctx, seq):
